@@ -239,6 +239,16 @@ def mutated(ctx, cname, full):
             check_case(ctx, dict(base, dec=dec, sig=m.hex(), mode=len(seen) % 3), cls_hint="mutated-" + kind)
     l = SU.olen(n)
     rb, sb = rs[0].to_bytes(l, "big"), rs[1].to_bytes(l, "big")
+    # fragments that stop right after a tag or a (long-form) length prefix
+    for frag in (b"\x30", b"\x30\x81", b"\x30\x82", b"\x30\x82\x01", b"\x30\x84", b"\x30\x02\x02", b"\x30\x02\x02\x81",
+                 b"\x30\x03\x02\x82\x00", b"\x30\x05\x02\x01\x01\x02", b"\x30\x05\x02\x01\x01\x02\x81",
+                 b"\x30\x06\x02\x01\x01\x02\x82\x00", b"\x30\x80", b"\x30\x00", b"\x02\x01\x01"):
+        for mode in (0, 1, 2):
+            check_case(ctx, dict(base, dec="der", sig=frag.hex(), mode=mode), cls_hint="der-fragment")
+    # the valid raw signature cut at the wrong place: total length right, halves mis-sized
+    whole = rb + sb
+    for cut in (0, 1, l - 1, l + 1, 2 * l - 1, 2 * l):
+        check_case(ctx, dict(base, dec="strings", sig=[whole[:cut].hex(), whole[cut:].hex()]), cls_hint="strings-unbalanced")
     pool = [b"", rb, sb, rb[1:], rb + b"\x00", b"\x00" + sb, sb[:-1]]
     for cnt in range(0, 4):
         for parts in itertools.product(pool, repeat=cnt):
